@@ -5,11 +5,11 @@ USB3PhysicalLayer wires it (the RxWordAligner behind it is always ready).
 
 Oracle (independent of the DUT's buffer): the input is seen as a sequence of 9-bit symbols
 (ctrl, data), symbol 0 of a word = bits [7:0] = first in time.  A ghost counter numbers the non-SKP
-symbols of accepted words, a second one numbers the symbols of output words.  A symbolic constant k
-selects one index ("tracked element"): the k-th non-SKP input symbol is captured and must be exactly
-the k-th output symbol; the k-th output symbol must not appear before the k-th input symbol was
-accepted.  Since k is universally quantified, this is "same sequence, same order, no loss, no
-duplication".  The grouping clause is `source.valid <=> at least 4 undelivered non-SKP symbols`.
+symbols.  A ghost counter `pending` counts accepted non-SKP symbols not yet delivered (4 leave per output
+word).  The environment marks one non-SKP input symbol of its choice ("tracked element"); the monitor
+records how many undelivered symbols are in front of it and demands that exactly that output position
+carries exactly that symbol.  Since the choice is universally quantified, this is "same sequence, same
+order, no loss, no duplication".  The grouping clause is `source.valid <=> pending >= 4`.
 """
 from amaranth import *
 from ..harness import Harness
@@ -26,8 +26,8 @@ ASSUMPTIONS = [
     "SKP symbol = K28.1 = data 0x3C with its ctrl bit set (USB 3.2 table 6-1), written here as a literal",
     "prompt regrouping: an output word is expected in every cycle in which >= 4 accepted non-SKP symbols are undelivered",
 ]
-BOUNDS = "BMC from reset, K cycles (quick 10, thorough 16), every word/ctrl/valid free per cycle, tracked index k symbolic " \
-         "(6 bit constant); additional layer with sink.valid=1 (as wired) to K 12/20"
+BOUNDS = "BMC from reset, K cycles (quick 9, thorough 13; fully free tracked choice 6/8; tracked-symbol case split runs 6 cycles past the mark), every word/ctrl/valid free per cycle, tracked symbol chosen by the " \
+         "solver (case split over the marking cycle); plus a 1-step induction from an arbitrary buffer state (unbounded)"
 OUTSIDE = "source.ready=0 stalls (excluded by the statement); sequences longer than K words (the DUT state is a <=7-symbol " \
           "buffer, every occupancy 0..7 is reached within 3 cycles); the PHY's own elastic buffer"
 
@@ -44,11 +44,13 @@ class RemoverHarness(Harness):
         self.in_valid = self.inp("in_valid", 1)
         self.in_data = self.inp("in_data", 32)
         self.in_ctrl = self.inp("in_ctrl", 4)
-        self.k = self.inp("k", 6, const=True)
+        self.mark = self.inp("mark", 1)           # environment's choice of the tracked symbol (first legal mark counts)
+        self.mark_pos = self.inp("mark_pos", 2)
+        self.late = Signal(name="late")
         self.restrictions.append("source.ready tied to 1; sink.first/last tied to 0")
 
         self.v_value = self.viol("tracked_value")      # k-th output symbol == k-th non-SKP input symbol
-        self.v_early = self.viol("not_before_input")   # k-th output symbol never precedes k-th input symbol (no invention/duplication)
+        self.v_early = self.viol("not_before_input")   # k-th output symbol never precedes k-th input symbol (output only what was accepted: delivered <= accepted)
         self.v_skp = self.viol("no_skp_out")           # no SKP symbol in an output word
         self.v_group = self.viol("regroup_prompt")     # valid <=> >=4 symbols pending  (no loss, 4-symbol words)
         self.v_ready = self.viol("sink_always_ready")  # the PHY cannot be stalled: sink.ready stays 1
@@ -75,56 +77,62 @@ class RemoverHarness(Harness):
         accept = Signal(name="accept")
         m.d.comb += accept.eq(sink.valid & sink.ready)
 
-        # ---- input side: number the non-SKP symbols
-        W = 8
-        in_count = Signal(W, name="in_count")     # non-SKP symbols accepted before this cycle
-        out_count = Signal(W, name="out_count")   # symbols delivered before this cycle
+        # ---- ghost bookkeeping: number of accepted non-SKP symbols not yet delivered
         is_skp = [Signal(name=f"is_skp{i}") for i in range(4)]
         for i in range(4):
             m.d.comb += is_skp[i].eq((self.in_data.word_select(i, 8) == SKP_DATA) & (self.in_ctrl[i] == SKP_CTRL))
-        idx = [Signal(W, name=f"idx{i}") for i in range(5)]
-        m.d.comb += idx[0].eq(in_count)
-        for i in range(4):
-            m.d.comb += idx[i + 1].eq(idx[i] + ~is_skp[i])
         nskp = Signal(3, name="nskp")
         m.d.comb += nskp.eq(sum(is_skp))
+        below = [Signal(3, name=f"below{i}") for i in range(4)]   # non-SKP symbols of this word before position i
+        for i in range(4):
+            m.d.comb += below[i].eq(sum((~is_skp[j] for j in range(i)), Const(0, 3)))
 
+        deliver = Signal(name="deliver")
+        m.d.comb += deliver.eq(source.valid)      # ready == 1
+        pending = Signal(6, name="pending")       # >= 6 bits: a DUT that stops delivering is flagged by regroup_prompt first
+        after_out = Signal(6, name="after_out")
+        m.d.comb += after_out.eq(pending - Mux(deliver, 4, 0))
+        m.d.ss += pending.eq(after_out + Mux(accept, 4 - nskp, 0))
+
+        # ---- tracked symbol: the environment marks (at most once) one non-SKP symbol of an accepted word
         tracked = Signal(9, name="tracked")
         tracked_pos = Signal(2, name="tracked_pos")
         captured = Signal(name="captured")
-        with m.If(accept):
-            m.d.ss += in_count.eq(idx[4])
-            for i in range(4):
-                with m.If(~is_skp[i] & (idx[i] == self.k)):
-                    m.d.ss += [tracked.eq(Cat(self.in_data.word_select(i, 8), self.in_ctrl[i])),
-                               tracked_pos.eq(i), captured.eq(1)]
-
-        # ---- output side
-        deliver = Signal(name="deliver")
-        m.d.comb += deliver.eq(source.valid)      # ready == 1
-        with m.If(deliver):
-            m.d.ss += out_count.eq(out_count + 4)
-        k8 = Signal(W, name="k8")
-        m.d.comb += k8.eq(self.k)
+        done = Signal(name="done")
+        ahead = Signal(6, name="ahead")           # undelivered symbols in front of the tracked one
+        take = Signal(name="take")
+        m.d.comb += take.eq(accept & self.mark & ~captured & ~Array(is_skp)[self.mark_pos])
         hit = Signal(name="hit")
+        m.d.comb += hit.eq(deliver & captured & ~done & (ahead < 4))
+        with m.If(take):
+            m.d.ss += [tracked.eq(Cat(self.in_data.word_select(self.mark_pos, 8), self.in_ctrl.bit_select(self.mark_pos, 1))),
+                       tracked_pos.eq(self.mark_pos), captured.eq(1),
+                       ahead.eq(after_out + Array(below)[self.mark_pos])]
+        with m.Elif(captured & ~done & deliver):
+            with m.If(ahead < 4):
+                m.d.ss += done.eq(1)
+            with m.Else():
+                m.d.ss += ahead.eq(ahead - 4)
         pos = Signal(2, name="pos")
-        m.d.comb += [hit.eq(deliver & (k8 >= out_count) & (k8 < out_count + 4)), pos.eq((k8 - out_count)[:2])]
+        m.d.comb += pos.eq(ahead[:2])
         out_sym = Signal(9, name="out_sym")
         m.d.comb += out_sym.eq(Cat(source.data.word_select(pos, 8), source.ctrl.bit_select(pos, 1)))
 
         m.d.comb += [
-            self.v_value.eq(hit & captured & (out_sym != tracked)),
-            self.v_early.eq(hit & ~captured),
-            self.c_value.eq(hit & captured & (out_sym == tracked)),
-            self.c_value_mid.eq(hit & captured & (out_sym == tracked) & (pos != tracked_pos) & (self.k > 8)),
+            self.v_value.eq(hit & (out_sym != tracked)),
+            self.v_early.eq(deliver & (pending < 4)),
+            self.c_value.eq(hit & (out_sym == tracked)),
+            self.c_value_mid.eq(hit & (out_sym == tracked) & (pos != tracked_pos) & self.late),
         ]
+        late = Signal(4, name="latecnt")
+        with m.If(late != 15):
+            m.d.ss += late.eq(late + 1)
+        m.d.comb += self.late.eq(late >= 5)
         out_skp = Signal(4, name="out_skp")
         for i in range(4):
             m.d.comb += out_skp[i].eq((source.data.word_select(i, 8) == SKP_DATA) & (source.ctrl[i] == SKP_CTRL))
         m.d.comb += self.v_skp.eq(deliver & (out_skp != 0))
 
-        pending = Signal(W, name="pending")
-        m.d.comb += pending.eq(in_count - out_count)
         m.d.comb += [
             self.v_group.eq(source.valid != (pending >= 4)),
             self.v_ready.eq(~sink.ready),
@@ -154,8 +162,8 @@ class RemoverHarness(Harness):
             m.d.ss += three.eq(was_empty & (hist1 == 1) & (nskp == 2))
         m.d.comb += self.c_group.eq(accept & three & (pending == 3) & (nskp != 4))
 
-        self.obs("in_count", in_count)
-        self.obs("out_count", out_count)
+        self.obs("pending", pending)
+        self.obs("ahead", ahead)
         self.obs("src_valid", source.valid)
         self.obs("src_data", source.data)
         self.obs("src_ctrl", source.ctrl)
@@ -163,7 +171,7 @@ class RemoverHarness(Harness):
         return m
 
     def stimulus(self, rng, t, consts):
-        d = {"k": consts["k"], "in_valid": int(rng.random() < 0.85)}
+        d = {"mark": int(rng.random() < 0.1), "mark_pos": rng.getrandbits(2), "in_valid": int(rng.random() < 0.85)}
         data = 0
         ctrl = 0
         for i in range(4):
@@ -182,13 +190,51 @@ class RemoverHarness(Harness):
         return d
 
 
+def _inv(ts, frame, h):
+    """IND strengthening (uses DUT internals only as an invariant, never as the oracle):
+    ghost pending == DUT fill level <= 7; the valid top bytes of the shift register hold no SKP; an undelivered
+    tracked symbol sits `ahead` places behind the oldest valid byte."""
+    import z3
+    names = ["dut.bytes_in_buffer", "dut.data_buffer", "dut.ctrl_buffer", "pending", "captured", "done", "ahead", "tracked"]
+    sigs = {n: ts.signal_by_name(n) for n in names}
+    if any(v is None for v in sigs.values()):
+        return None, names
+    v = {n: frame.sig(s) for n, s in sigs.items()}
+    b, data, ctrl = v["dut.bytes_in_buffer"], v["dut.data_buffer"], v["dut.ctrl_buffer"]
+    pend, capt, done, ahead, tracked = v["pending"], v["captured"], v["done"], v["ahead"], v["tracked"]
+    b6 = z3.ZeroExt(2, b)
+    conds = [z3.ULE(b, 7), pend == b6, z3.Implies(done == 1, capt == 1)]
+    sym = [z3.Concat(z3.Extract(j, j, ctrl), z3.Extract(8 * j + 7, 8 * j, data)) for j in range(8)]
+    for j in range(1, 8):        # byte j is valid iff j >= 8 - b
+        conds.append(z3.Implies(z3.UGE(b6, 8 - j), sym[j] != ((SKP_CTRL << 8) | SKP_DATA)))
+    live = z3.And(capt == 1, done == 0)
+    conds.append(z3.Implies(live, z3.ULT(ahead, b6)))
+    for j in range(1, 8):        # tracked symbol at index 8 - b + ahead
+        conds.append(z3.Implies(z3.And(live, (8 - b6 + ahead) == j), sym[j] == tracked))
+    return conds, ["pending==fill<=7", "valid buffer bytes are not SKP", "tracked symbol at buffer[8-fill+ahead]"]
+
+
 def queries(tier):
     f = RemoverHarness
     quick = tier == "quick"
-    return [
-        Query("bmc_free", f, 10 if quick else 16, timeout=600,
-              desc="words, ctrl flags and sink.valid free every cycle; tracked index k symbolic"),
-        Query("bmc_valid1", f, 12 if quick else 20, layer={"in_valid": 1}, covers=[], timeout=600,
-              desc="layer: sink.valid=1 in every cycle, as USB3PhysicalLayer wires it; deeper"),
+    K = 9 if quick else 13
+    others = ["not_before_input", "no_skp_out", "regroup_prompt", "sink_always_ready", "skip_removed_strobe"]
+    qs = [
+        Query("bmc_free", f, 6 if quick else 8, timeout=600,
+              desc="words, ctrl flags, sink.valid and the choice of the tracked symbol free every cycle"),
+        Query("bmc_deep", f, K, asserts=others, covers=[], timeout=600,
+              desc="same free environment, deeper, assertions that do not involve the tracked symbol"),
+    ]
+    for t0 in range(K - 2):
+        qs.append(Query(f"bmc_mark{t0}", f, min(K, t0 + 7), asserts=["tracked_value"], covers=[], timeout=600,
+                        layer={"mark": (lambda t, t0=t0: int(t == t0))},
+                        desc=f"case split of the tracked-symbol choice: the symbol is marked in cycle {t0} (any position); "
+                             "the union over all cycles equals the free choice; everything else free; runs 6 cycles past the mark "
+                             "(the symbol leaves the <=7-symbol buffer within 2 accepted words)"))
+    qs += [
+        Query("ind", f, 1, kind="ind", invariants=_inv, timeout=600,
+              desc="1-step induction from an arbitrary buffer state (all histories, unbounded length); invariant: ghost "
+                   "pending == fill level, valid bytes hold no SKP, tracked symbol at its buffer place"),
         Query("cosim", f, 0, kind="cosim", cosim_cycles=300 if quick else 2000),
     ]
+    return qs
